@@ -14,7 +14,7 @@ CONSTANTS
   Crds = {"current"}
   Whcs = {"current"}
   Kinds = {"prov"}
-  Hosts = {"", "h", "hp"}
+  Hosts = {"", "h", "hp", "hd"}
   ReqVers = {"t2"}
   InstNames = {"def", "custom"}
   InstVers = {"t1"}
